@@ -4,7 +4,8 @@
 
   1. cuts: a tracker state `Cut t k c` from which no occurrence can ever contain a position `< k`
      together with a position `≥ c + 1`; it is preserved by every later `push`; it is established by a
-     token hinted "not a number part" (`k = pos + 1, c = pos`: the token is in no occurrence) and by a
+     token hinted "not a number part" (`k = pos + 1, c = pos`: the token is in no occurrence; such a token
+     is never skipped, `isSkipped_of_nan`) and by a
      token hinted "separated from its predecessor" (`k = c = pos`: no occurrence contains the token and
      anything before it).
   2. the position shift by one from position `i` on (`shiftS i`), a function on scanner states which
@@ -21,13 +22,19 @@ import T2N.Lemmas.SimpleCC
 namespace T2N.Hints
 open T2N
 
+/-- a token hinted "not a number part" is never skipped: it always goes through `pushNan` -/
+theorem isSkipped_of_nan (cfg : ScanCfg) (tok : Tok) (h : tok.nan = true) :
+    Scanner.isSkipped cfg tok = false := by
+  unfold Scanner.isSkipped; rw [h]; rfl
+
 /-! ### the predecessor of a token: the last token before it that the scanner does not skip -/
 
 def prevFrom (cfg : ScanCfg) : Option Tok → List Tok → Option Tok
   | p, [] => p
   | p, t :: ts => prevFrom cfg (if Scanner.isSkipped cfg t then p else some t) ts
 
-/-- the last token of `ts` that is not skipped (a lone `-` or whitespace is skipped) -/
+/-- the last token of `ts` that is not skipped (a lone `-` or whitespace is skipped, unless it is hinted
+"not a number part") -/
 def prevSig (cfg : ScanCfg) (ts : List Tok) : Option Tok := prevFrom cfg none ts
 
 theorem prevFrom_eq (cfg : ScanCfg) : ∀ (ts : List Tok) (p : Option Tok),
@@ -194,8 +201,12 @@ theorem pushRejected_cut (cfg : ScanCfg) (s s' : Scanner) (pos : Nat) (tok : Tok
       by_cases hr : (s1.parser.push cfg.lang tok.lower).1.isNone = true
       · rw [if_pos hr] at he; cases he
         exact hc1.advanced hk
-      · rw [if_neg hr] at he; cases he
-        exact outside_cut cfg { s1 with parser := (s1.parser.push cfg.lang tok.lower).2 } tok k c hc1
+      · rw [if_neg hr] at he
+        by_cases hinc : ((s1.parser.push cfg.lang tok.lower).1 == some Err.incomplete) = true
+        · rw [if_pos hinc] at he; cases he
+          exact hc1
+        · rw [if_neg hinc] at he; cases he
+          exact outside_cut cfg { s1 with parser := (s1.parser.push cfg.lang tok.lower).2 } tok k c hc1
   · rw [if_neg hn] at he; cases he
     exact outside_cut cfg s tok k c h
 
@@ -287,8 +298,9 @@ theorem numberEnd_closed (cfg : ScanCfg) (s s1 : Scanner) (pos : Nat) (hsc : ScI
     · dsimp only; rw [b2]; exact hsc.2.1
 
 theorem push_nan_cut (cfg : ScanCfg) (s s' : Scanner) (pos : Nat) (tok : Tok) (hsc : ScInv s pos)
-    (hsi : SInv s) (hnan : tok.nan = true) (hs : Scanner.isSkipped cfg tok = false)
+    (hsi : SInv s) (hnan : tok.nan = true)
     (he : s.push cfg pos tok = .ok s') : Cut s'.tracker (pos + 1) pos := by
+  have hs := isSkipped_of_nan cfg tok hnan
   unfold Scanner.push at he
   rw [if_neg (by rw [hs]; simp), if_pos hnan] at he
   unfold Scanner.pushNan at he
@@ -316,7 +328,7 @@ theorem push_sep_cut (cfg : ScanCfg) (hl : LangOk cfg.lang) (hc : cfg.lang.Rejec
     (hsep : cfg.sep tok prev = true) (hs : Scanner.isSkipped cfg tok = false)
     (he : s.push cfg pos tok = .ok s') : Cut s'.tracker pos pos := by
   by_cases hnan : tok.nan = true
-  · exact (push_nan_cut cfg s s' pos tok hsc hsi hnan hs he).weaken (by omega)
+  · exact (push_nan_cut cfg s s' pos tok hsc hsi hnan he).weaken (by omega)
   by_cases hn : s.parser.hasNumber = true
   · -- a number is open: the word tested is the forced stop
     unfold Scanner.push at he
@@ -343,8 +355,12 @@ theorem push_sep_cut (cfg : ScanCfg) (hl : LangOk cfg.lang) (hc : cfg.lang.Rejec
       by_cases hr2 : (s1.parser.push cfg.lang tok.lower).1.isNone = true
       · rw [if_pos hr2] at key; cases key
         exact hc1.advanced (Nat.le_refl _)
-      · rw [if_neg hr2] at key; cases key
-        exact outside_cut cfg { s1 with parser := (s1.parser.push cfg.lang tok.lower).2 } tok _ _ hc1
+      · rw [if_neg hr2] at key
+        by_cases hinc : ((s1.parser.push cfg.lang tok.lower).1 == some Err.incomplete) = true
+        · rw [if_pos hinc] at key; cases key
+          exact hc1
+        · rw [if_neg hinc] at key; cases key
+          exact outside_cut cfg { s1 with parser := (s1.parser.push cfg.lang tok.lower).2 } tok _ _ hc1
   · -- no number is open: no match is open, whatever the token does it cannot extend one
     have hcl := hsi.closed (by simpa using hn)
     exact push_cut cfg s s' pos tok pos pos (Cut.of_closed hsc hcl hsc.2.1) hsc.1 (Nat.le_refl _) he
@@ -505,10 +521,12 @@ theorem shiftS_pushRejected (cfg : ScanCfg) (i : Nat) (s : Scanner) (pos : Nat) 
       by_cases hr : (s1.parser.push cfg.lang tok.lower).1.isNone = true
       · simp only [shiftS, hr, if_true]
         rw [shiftT_advanced i pos s1.tracker hp (by omega)]
-      · simp only [shiftS, hr, Bool.false_eq_true, if_false]
-        have := shiftS_outside cfg i { s1 with parser := (s1.parser.push cfg.lang tok.lower).2 } tok
-        simp only [shiftS] at this
-        rw [this]
+      · by_cases hinc : ((s1.parser.push cfg.lang tok.lower).1 == some Err.incomplete) = true
+        · simp only [shiftS, hr, hinc, Bool.false_eq_true, if_false, if_true]
+        · simp only [shiftS, hr, hinc, Bool.false_eq_true, if_false]
+          have := shiftS_outside cfg i { s1 with parser := (s1.parser.push cfg.lang tok.lower).2 } tok
+          simp only [shiftS] at this
+          rw [this]
   · rw [if_neg hn, if_neg hn]
     simp only [mapShift]; rw [shiftS_outside]; rfl
 
@@ -599,12 +617,6 @@ def freshStep (cfg : ScanCfg) (tr : Tracker) (pos : Nat) (t : Tok) : Scanner :=
   | some .incomplete => ⟨(({} : Parser).push cfg.lang t.lower).2, tr, some t⟩
   | some _ => ⟨(({} : Parser).push cfg.lang t.lower).2, if breaks cfg t then tr.breaker else tr, some t⟩
 
-/-- the state after the end of a number caused by a token that is then tried on the pristine parser -/
-def tailStep (cfg : ScanCfg) (tr : Tracker) (pos : Nat) (t : Tok) : Scanner :=
-  if (({} : Parser).push cfg.lang t.lower).1.isNone then
-    ⟨(({} : Parser).push cfg.lang t.lower).2, tr.advanced pos, some t⟩
-  else ⟨(({} : Parser).push cfg.lang t.lower).2, if breaks cfg t then tr.breaker else tr, some t⟩
-
 theorem fresh_noNumber : ({} : Parser).hasNumber = false := rfl
 
 theorem push_fresh_form (cfg : ScanCfg) (hl : LangOk cfg.lang) (tr : Tracker) (prev : Option Tok) (pos : Nat)
@@ -633,33 +645,26 @@ theorem push_fresh_form (cfg : ScanCfg) (hl : LangOk cfg.lang) (tr : Tracker) (p
     | nan => exact hrej _ hr
     | frozen => exact hrej _ hr
 
+/-- the end of a number caused by a token that is then tried on the pristine parser: the retry has the
+three outcomes of a push on the pristine parser (accepted, `Incomplete` = skipped, refused) -/
 theorem pushRejected_form (cfg : ScanCfg) (s sN : Scanner) (pos : Nat) (t : Tok)
     (hn : s.parser.hasNumber = true) (h1 : s.numberEnd cfg = .ok sN) :
-    Scanner.pushRejected cfg s pos t = .ok (tailStep cfg sN.tracker pos t) := by
+    Scanner.pushRejected cfg s pos t = .ok (freshStep cfg sN.tracker pos t) := by
   have hp := numberEnd_parser cfg s sN h1
-  unfold Scanner.pushRejected tailStep
+  unfold Scanner.pushRejected freshStep
   rw [if_pos hn, h1]
   dsimp only
   rw [hp]
-  by_cases hr : (({} : Parser).push cfg.lang t.lower).1.isNone = true
-  · rw [if_pos hr, if_pos hr]
-  · rw [if_neg hr, if_neg hr, outside_eq]
-    split <;> rfl
-
-theorem tailStep_eq_fresh (cfg : ScanCfg) (tr : Tracker) (pos : Nat) (t : Tok)
-    (hq : (({} : Parser).push cfg.lang t.lower).1 = some .incomplete → breaks cfg t = false) :
-    tailStep cfg tr pos t = freshStep cfg tr pos t := by
-  unfold tailStep freshStep
-  cases hr : (({} : Parser).push cfg.lang t.lower).1 with
+  cases (({} : Parser).push cfg.lang t.lower).1 with
   | none => rfl
   | some e =>
     cases e with
-    | incomplete =>
-      rw [hr] at hq
-      rw [hq rfl]; rfl
-    | overlap => rfl
-    | nan => rfl
-    | frozen => rfl
+    | incomplete => rfl
+    | overlap | nan | frozen =>
+      rw [outside_eq]
+      by_cases hb : breaks cfg t = true
+      · rw [if_pos hb, if_pos hb]; rfl
+      · rw [if_neg hb, if_neg hb]; rfl
 
 theorem shiftS_freshStep (cfg : ScanCfg) (i : Nat) (tr : Tracker) (t : Tok) (hle : tr.mstart ≤ tr.mend) :
     shiftS i (freshStep cfg tr i t) = freshStep cfg (shiftT i tr) (i + 1) t := by
@@ -681,8 +686,7 @@ theorem comma_step (cfg : ScanCfg) (hl : LangOk cfg.lang) (hf : cfg.lang.ErrFres
     (hc : cfg.lang.Rejects [',']) (hcc : CommaChar cfg.cc) (s : Scanner) (i : Nat) (t : Tok)
     (hsc : ScInv s i) (hsi : SInv s) (hidle : Idle s.parser)
     (hs : Scanner.isSkipped cfg t = false) (hnan : t.nan = false)
-    (hsep : s.parser.hasNumber = true → Scanner.testWord cfg s t = [','])
-    (hq : (({} : Parser).push cfg.lang t.lower).1 = some .incomplete → breaks cfg t = false) :
+    (hsep : s.parser.hasNumber = true → Scanner.testWord cfg s t = [',']) :
     ∃ sc, s.push cfg i commaTok = .ok sc ∧ sc.push cfg (i + 1) t = mapShift i (s.push cfg i t) := by
   have hcs := comma_notSkipped cfg hcc
   have hcb := comma_notBreaks cfg hcc
@@ -696,7 +700,7 @@ theorem comma_step (cfg : ScanCfg) (hl : LangOk cfg.lang) (hf : cfg.lang.ErrFres
     obtain ⟨sN, eN, cN⟩ := numberEnd_ok cfg { s with parser := (s.parser.push cfg.lang [',']).2 } i hsc hn'
     -- any token whose tested word is the forced stop
     have hpush : ∀ tok : Tok, Scanner.isSkipped cfg tok = false → tok.nan = false →
-        Scanner.testWord cfg s tok = [','] → s.push cfg i tok = .ok (tailStep cfg sN.tracker i tok) := by
+        Scanner.testWord cfg s tok = [','] → s.push cfg i tok = .ok (freshStep cfg sN.tracker i tok) := by
       intro tok h1 h2 h3
       unfold Scanner.push
       rw [if_neg (by rw [h1]; simp), if_neg (by rw [h2]; simp), h3]
@@ -707,14 +711,18 @@ theorem comma_step (cfg : ScanCfg) (hl : LangOk cfg.lang) (hf : cfg.lang.ErrFres
       | overlap => rw [hr]; exact this
       | nan => rw [hr]; exact this
       | frozen => rw [hr]; exact this
-    have hcomma : tailStep cfg sN.tracker i commaTok = ⟨{}, sN.tracker, some commaTok⟩ := by
-      unfold tailStep
+    have hcomma : freshStep cfg sN.tracker i commaTok = ⟨{}, sN.tracker, some commaTok⟩ := by
+      unfold freshStep
       have hl' : commaTok.lower = [','] := rfl
       rw [hl', hfresh, hr0, hcb]
-      rfl
+      cases e0 with
+      | incomplete => exact absurd rfl hne0
+      | overlap => rfl
+      | nan => rfl
+      | frozen => rfl
     refine ⟨⟨{}, sN.tracker, some commaTok⟩, ?_, ?_⟩
     · rw [hpush commaTok hcs rfl (testWord_comma cfg s), hcomma]
-    · rw [hpush t hs hnan (hsep hn), push_fresh_form cfg hl _ _ _ t hs hnan, tailStep_eq_fresh cfg _ _ t hq]
+    · rw [hpush t hs hnan (hsep hn), push_fresh_form cfg hl _ _ _ t hs hnan]
       simp only [mapShift]
       rw [shiftS_freshStep cfg i sN.tracker t cN.1, shiftT_below i sN.tracker cN]
   · -- no number is open: the comma changes nothing but the remembered previous token
@@ -744,8 +752,7 @@ one of the positions from `t` on -/
 theorem findNumbers_comma (cfg : ScanCfg) (hl : LangOk cfg.lang) (hf : cfg.lang.ErrFresh)
     (hc : cfg.lang.Rejects [',']) (hcc : CommaChar cfg.cc) (A B : List Tok) (t p : Tok)
     (hp : prevSig cfg A = some p) (hsep : cfg.sep t p = true)
-    (hs : Scanner.isSkipped cfg t = false) (hnan : t.nan = false)
-    (hq : (({} : Parser).push cfg.lang t.lower).1 = some .incomplete → breaks cfg t = false) :
+    (hs : Scanner.isSkipped cfg t = false) (hnan : t.nan = false) :
     ∃ occs, findNumbers cfg (A ++ t :: B) = .ok occs ∧
       findNumbers cfg (A ++ commaTok :: t :: B) = .ok (occs.map (shiftOcc A.length)) := by
   obtain ⟨sA, eA, iA, cA, dA⟩ := pushAll_rinv cfg hl hf A {} 0 RInv.init
@@ -753,7 +760,7 @@ theorem findNumbers_comma (cfg : ScanCfg) (hl : LangOk cfg.lang) (hf : cfg.lang.
   have hprev : sA.previous = some p := by
     rw [pushAll_previous cfg A {} sA 0 eA]; exact hp
   obtain ⟨sc, e1, e2⟩ := comma_step cfg hl hf hc hcc sA A.length t cA iA dA hs hnan
-    (fun hn => testWord_sep cfg sA t p hprev hsep hn) hq
+    (fun hn => testWord_sep cfg sA t p hprev hsep hn)
   obtain ⟨s1, e3, c1⟩ := push_ok cfg sA A.length t cA
   rw [e3] at e2
   simp only [mapShift] at e2
@@ -948,8 +955,12 @@ theorem pushRejected_shape (cfg : ScanCfg) (s s' : Scanner) (pos : Nat) (tok : T
       by_cases hr : (s1.parser.push cfg.lang tok.lower).1.isNone = true
       · rw [if_pos hr] at he; cases he
         exact Or.inr (Or.inr rfl)
-      · rw [if_neg hr] at he; cases he
-        exact outside_step cfg { s1 with parser := (s1.parser.push cfg.lang tok.lower).2 } tok pos
+      · rw [if_neg hr] at he
+        by_cases hinc : ((s1.parser.push cfg.lang tok.lower).1 == some Err.incomplete) = true
+        · rw [if_pos hinc] at he; cases he
+          exact Or.inl rfl
+        · rw [if_neg hinc] at he; cases he
+          exact outside_step cfg { s1 with parser := (s1.parser.push cfg.lang tok.lower).2 } tok pos
   · rw [if_neg hn] at he; cases he
     exact Or.inl (outside_step cfg s tok pos)
 
